@@ -691,7 +691,7 @@ def gen_definition(rng, depth=3, **opts):
         ctx = _Ctx(rng, opts)
         decls = []
         for i in range(rng.choice([0, 1, 1, 2, 3])):
-            d = max(0, rng.randrange(0, depth))
+            d = rng.randrange(0, max(depth, 1))
             kind = rng.choice(['enum', 'struct', 'taggedstruct', 'taggedunion'])
             if kind == 'enum':
                 t = _gen_enum(ctx, ctx.typename('enum'))
